@@ -607,7 +607,8 @@ _through_time = _mk_tt("C01")
 def _joined_chunks(ctx):
     """chunks read lazily are put together again with np.concatenate: every chunk's tables are shifted by the cumulative size of the chunks before it"""
     from .c04 import r2_aligned_stores
-    r2_aligned_stores(ctx)
+    with ctx.only("concatenate"):          # selection / compaction of a chunk is not chunked reading
+        r2_aligned_stores(ctx)
 
 
 def _padded_gather_in_bounds(ctx):
